@@ -102,3 +102,82 @@ def check_C07(tier):
     )
     chk.assumptions += ["oracle = InfOCFSem.tla extended-mode definitions, validated by ThmWeak/Coincide on the 2-atom universe"]
     return chk.finish()
+
+
+def check_C06(tier):
+    from drivers import consist
+
+    return consist.run(Check("C06", tier), tier)
+
+
+def check_C08(tier):
+    from drivers import relations as rel
+
+    chk = Check("C08", tier)
+    rng = random.Random(chk.seed)
+    infer.verify_theorems(chk, ["Incl", "InclC"], tier, rng)
+    cases = rel.corpus_cases(rng, tier)
+    cases += rel.generated_cases(rng, 40 if tier == "quick" else 400)
+    cases += rel.small_cases(rng, 60 if tier == "quick" else 600, shapes=("strong", "weak-mixed", "weak-nofin"))
+    rel.run_inclusions(chk, cases, modes=[False, True], budget=60)
+    chk.cov["rule"] = (
+        "Every operator/back-end/mode asked the same queries on: shipped corpora (birds, random_large 6-20 atoms quick / up to 60 thorough, "
+        "484 representatives), generated layered bases with 8-40 atoms, and sampled 3-5 atom bases; TLC (Trace_Relations) checks p=>Z=>W=>lex and, "
+        "strict mode, p=>c=>W row by row. Rows flagged as timed out carry no information ('X'). Non-trivial = (case, mode, query) where the operators do not all agree."
+    )
+    chk.assumptions += ["inclusions are theorems of the semantics (checked on the spec by MC_SemTheorems Incl/InclC)", "no world enumeration: bases of any size"]
+    return chk.finish()
+
+
+def check_C09(tier):
+    from drivers import relations as rel
+
+    chk = Check("C09", tier)
+    rng = random.Random(chk.seed)
+    infer.verify_theorems(chk, ["Direct", "SysP", "RM", "ConsPres"], tier, rng, sample2=(12 if tier == "quick" else 250))
+    cases = rel.corpus_cases(rng, tier, per_size=1, nq=1)
+    cases += rel.generated_cases(rng, 16 if tier == "quick" else 200, atom_range=(6, 24))
+    cases += rel.small_cases(rng, 50 if tier == "quick" else 600, shapes=("strong", "weak-mixed"))
+    fired = rel.run_postulates(chk, cases, modes=[False, True], n_inst=(6 if tier == "quick" else 12))
+    need = {"DI", "REF", "SCL", "LLE", "RW", "AND", "OR", "CM", "CUT", "CONS", "RM"}
+    missing = need - set(k for k, v in fired.items() if v > 0)
+    if missing:
+        from common import machinery_failure
+
+        machinery_failure(f"C09: postulates never instantiated with true premises: {sorted(missing)} (vacuous)")
+    chk.cov["rule"] = (
+        "Per base and configuration (operator x back-end x mode; c-inference strict only) one manager: phase 1 asks a pool of antecedent x consequent "
+        "conditionals, phase 2 instantiates DI, REF, SCL, LLE, RW, AND, OR, CM, CUT, CONS (strict) and RM (Z, lex) with premises that were answered True "
+        "and asks the conclusions; TLC (Trace_Relations 'post' events) checks premises => conclusion. Non-trivial = instance whose premises all hold."
+    )
+    chk.assumptions += ["postulates are theorems of the semantics (MC_SemTheorems SysP/RM/ConsPres/Direct on the 2-atom universe)"]
+    return chk.finish()
+
+
+def check_C11(tier):
+    import engines
+    from drivers import relations as rel
+
+    chk = Check("C11", tier)
+    rng = random.Random(chk.seed)
+    infer.verify_theorems(chk, ["Coincide"], tier, rng, sample2=50)
+    ok, bad = engines.usable_engines()
+    chk.cov["usable_engines"] = ok
+    chk.cov["unusable_engines"] = bad
+    if tier == "quick":
+        chosen = sorted(rng.sample(ok, min(4, len(ok))))
+    else:
+        chosen = ok
+    rc2s = ["rc2"] + [f"rc2-{e}" for e in chosen]
+    backends = {"w": ["z3"] + rc2s, "l": ["z3"] + rc2s, "c": rc2s}
+    cases = rel.corpus_cases(rng, tier, per_size=1, nq=6)
+    cases += rel.generated_cases(rng, 12 if tier == "quick" else 150, atom_range=(6, 30), nq=6)
+    cases += rel.small_cases(rng, 60 if tier == "quick" else 800, shapes=("strong", "weak-mixed", "weak-nofin"), nq=8)
+    rel.run_inclusions(chk, cases, modes=[False, True], budget=60, systems=("w", "l", "c"), backends=backends, ev_kind="equal")
+    chk.cov["backends_compared"] = backends
+    chk.cov["rule"] = (
+        "System W and lex under z3, rc2 and rc2-<engine> (quick: 4 seeded engines of the usable ones, thorough: all), c-inference under every rc2 value, both modes, on corpora, "
+        "generated 6-30 atom bases and sampled 3-5 atom bases; TLC (Trace_Relations 'equal' events) requires pointwise equal answers. Non-trivial = distinct (case, mode, system, query) rows "
+        "for which at least two back-ends returned an unflagged answer (i.e. a comparison actually took place)."
+    )
+    return chk.finish()
